@@ -137,6 +137,11 @@ def tv_eval(test: ast.AST, assume: Dict[str, Optional[bool]]) -> Optional[bool]:
         k = src(test)
         if k in assume:
             return assume[k]
+        from .astutil import flipped as _fl
+
+        f2 = _fl(test)
+        if f2 is not None and src(f2) in assume:
+            return assume[src(f2)]
     if isinstance(test, ast.Constant):
         return bool(test.value)
     if isinstance(test, ast.UnaryOp) and isinstance(test.op, ast.Not):
@@ -247,6 +252,28 @@ def guarded_by(ctx, f: Func, node: ast.AST, pred: Callable[[ast.AST], Optional[b
     return False
 
 
+def inline(fn: ast.AST, e: ast.AST, depth: int = 0) -> ast.AST:
+    """A copy of expression e in which every local that has exactly one definition (a plain expression, not a
+    parameter) is replaced by that definition, recursively: `t = h(x); g(t)` is seen as `g(h(x))`."""
+    if depth > 6:
+        return e
+
+    class _In(ast.NodeTransformer):
+        def visit_Name(self, node):
+            if isinstance(node.ctx, ast.Load) and node.id not in params(fn):
+                defs = assignments_to(fn, node.id)
+                if len(defs) == 1 and defs[0][1] is not None and isinstance(defs[0][0], (ast.Assign, ast.AnnAssign)):
+                    v = defs[0][1]
+                    if not any(isinstance(x, ast.Name) and x.id == node.id for x in ast.walk(v)):
+                        return inline(fn, copy.deepcopy(v), depth + 1)
+            return node
+
+        def visit_Lambda(self, node):
+            return node
+
+    return _In().visit(copy.deepcopy(e))
+
+
 def reaching_defs(ctx, f: Func, name: str, at: ast.AST) -> List[Tuple[ast.AST, Optional[ast.AST]]]:
     """Definitions (stmt, value) of local `name` that reach the statement containing `at`.
 
@@ -319,12 +346,25 @@ def dominating_conditions(ctx, f: Func, node: ast.AST) -> List[Tuple[str, bool, 
     for n, s in cfg.stmt.items():
         if isinstance(s, (ast.If, ast.While)):
             t, fl = cfg.edge_node(s, "true"), cfg.edge_node(s, "false")
+            from .astutil import flipped as _flp
+
+            def emit(e, pol):
+                # push negations inwards: `not X` holding means X does not hold (and De Morgan on and/or)
+                while isinstance(e, ast.UnaryOp) and isinstance(e.op, ast.Not):
+                    e, pol = e.operand, not pol
+                if isinstance(e, ast.BoolOp) and ((isinstance(e.op, ast.And) and pol) or (isinstance(e.op, ast.Or) and not pol)):
+                    for v in e.values:
+                        emit(v, pol)
+                    return
+                out.append((src(e), pol, e))
+                m = _flp(e)
+                if m is not None:
+                    out.append((src(m), pol, m))
+
             if cfg.dominates(t, target):
-                for cj in conjuncts(s.test):
-                    out.append((src(cj), True, cj))
+                emit(s.test, True)
             elif cfg.dominates(fl, target):
-                for dj in disjuncts(s.test):
-                    out.append((src(dj), False, dj))
+                emit(s.test, False)
     return out
 
 
